@@ -76,6 +76,10 @@ func getHooks() SessionHooks {
 }
 
 type obsCache struct {
+	// beforeEvict (one shot per cycle, set by the run): environment event that lands between the snapshot and the n-th
+	// eviction of the cycle (the victim completes or is deleted while the cycle is running)
+	beforeEvict func(n int, pod *corev1.Pod)
+	evictCalls  int
 	crashed func() bool // the scheduler process has crashed in this cycle: later "decisions" never reach the cluster
 	schedcache.Cache
 	mu        sync.Mutex
@@ -108,6 +112,13 @@ func (o *obsCache) Bind(p *pod_info.PodInfo, hostname string, ann map[string]str
 }
 
 func (o *obsCache) Evict(pod *corev1.Pod, job *podgroup_info.PodGroupInfo, md eviction_info.EvictionMetadata, msg string) error {
+	o.mu.Lock()
+	o.evictCalls++
+	n, hook := o.evictCalls, o.beforeEvict
+	o.mu.Unlock()
+	if hook != nil {
+		hook(n, pod)
+	}
 	err := o.Cache.Evict(pod, job, md, msg)
 	d := Decision{Kind: "evict", Pod: pod.Name, Group: string(job.UID), Node: pod.Spec.NodeName, EvictAction: md.Action}
 	if md.Preemptor != nil {
